@@ -69,7 +69,7 @@ type batchTrack struct {
 	state     string // live-unestimated | live-estimated | timed-out | executed
 	entries   []*cpEntry
 	estimated map[int]bool
-	signed    map[string]bool // validator|cp
+	signed    map[string]bool         // validator|cp
 	accepted  map[string]map[int]bool // cp -> validators whose confirm was accepted
 	txIDs     []uint64
 	claimSent bool
@@ -136,9 +136,9 @@ type mon struct {
 	stake    []int64
 	total    int64
 
-	archive map[string]*cpEntry
-	tracks  map[string]*batchTrack
-	confs   []*confirmation
+	archive     map[string]*cpEntry
+	tracks      map[string]*batchTrack
+	confs       []*confirmation
 	cancelledTx map[uint64]bool
 
 	outbox  map[int][]outMsg
@@ -146,9 +146,9 @@ type mon struct {
 	evNonce map[string]uint64
 	ethH    uint64
 
-	msgs    map[string]*msgTrack
-	jobs    map[string]bool
-	proofs  map[string]*codectypes.Any
+	msgs   map[string]*msgTrack
+	jobs   map[string]bool
+	proofs map[string]*codectypes.Any
 
 	cur     obs
 	sent    []sentTx
@@ -157,6 +157,7 @@ type mon struct {
 	sched   []scheduledReplay
 	stopped bool
 	nSample int
+	startH  int64
 }
 
 type outMsg struct {
@@ -200,6 +201,7 @@ func run(c fw.Case, tier string, rec *fw.Recorder) {
 	_ = m.c.App.TreasuryKeeper.SetCommunityFundFee(m.c.Ctx(), "0.01")
 	_ = m.c.App.TreasuryKeeper.SetSecurityFee(m.c.Ctx(), "0.02")
 	rec.Sample(map[string]any{"params": p, "tokens": w.Tokens, "start_height": m.c.Height})
+	m.startH = m.c.Height
 	m.cur = m.observe()
 	m.absorb(m.cur, nil)
 	for b := 0; b < p.Blocks && !m.stopped; b++ {
@@ -433,7 +435,9 @@ func (m *mon) step() {
 		}
 	}
 	// --- users: jobs -> cross-chain messages
-	m.jobOps(h)
+	if h <= m.startH+int64(m.p.Blocks)-305 {
+		m.jobOps(h)
+	}
 	// --- pigeons
 	m.pigeonBatchOps(h)
 	m.pigeonMessageOps(h)
@@ -442,9 +446,9 @@ func (m *mon) step() {
 	if h%50 != 0 {
 		m.realEvidenceOps(h)
 	}
-	// --- jailed validators ask to be released
+	// --- jailed validators ask to be released (not in a block whose jailings are being judged)
 	for i, v := range w.Vals {
-		if pre.jailed[i] && r.Intn(100) < 12 {
+		if m.pendEv == nil && pre.jailed[i] && r.Intn(100) < 30 {
 			m.send(v, "unjail", slashingtypes.NewMsgUnjail(v.ValBech()), func(res chain.TxResult) {
 				if res.OK() {
 					m.rec.Count("unjail_accepted", 1)
@@ -455,7 +459,11 @@ func (m *mon) step() {
 		}
 	}
 
-	dt := time.Duration(1+r.Intn(3)) * time.Second
+	bs := m.p.BlockSecs
+	if bs < 1 {
+		bs = 3
+	}
+	dt := time.Duration(1+r.Intn(bs)) * time.Second
 	if m.p.TimeJumps && r.Intn(45) == 0 {
 		dt = time.Duration(30+r.Intn(400)) * time.Second
 	}
@@ -560,7 +568,11 @@ func (m *mon) pigeonBatchOps(h int64) {
 			for vi := range bt.accepted[cp] {
 				pw += m.stake[vi]
 			}
-			if pw*3 >= m.total*2 && m.chance("batch", 10) {
+			execPct := 10
+			if m.p.LazyRemote {
+				execPct = 1
+			}
+			if pw*3 >= m.total*2 && m.chance("batch", execPct) {
 				bt.claimSent = true
 				m.evNonce[b.ChainReferenceID]++
 				m.ethH += uint64(1 + r.Intn(5))
@@ -833,6 +845,18 @@ func (m *mon) replayCase(cf *confirmation, variant int) evCase {
 	return ec
 }
 
+// pickConf draws a signature, preferring signers that can still be jailed.
+func (m *mon) pickConf() *confirmation {
+	var cf *confirmation
+	for try := 0; try < 4; try++ {
+		cf = m.confs[m.r.Intn(len(m.confs))]
+		if !m.cur.jailed[cf.Signer] {
+			break
+		}
+	}
+	return cf
+}
+
 func (m *mon) replayOnFork(cf *confirmation, why string) {
 	ec := m.replayCase(cf, []int{0, 0, 0, 1, 2, 3, 4}[m.r.Intn(7)])
 	ec.Sender = m.anyAccount()
@@ -960,7 +984,7 @@ func (m *mon) forkRound() {
 			k = n
 		}
 		for i := 0; i < k; i++ {
-			m.replayOnFork(m.confs[r.Intn(n)], "random")
+			m.replayOnFork(m.pickConf(), "random")
 		}
 		// recent signatures are the interesting ones right after an election
 		for i := n - 1; i >= 0 && i >= n-2; i-- {
@@ -994,7 +1018,7 @@ func (m *mon) realEvidenceOps(h int64) {
 	}
 	m.sched = keep
 	if !have && len(m.confs) > 0 && r.Intn(100) < 4 {
-		ec = m.replayCase(m.confs[r.Intn(len(m.confs))], r.Intn(5))
+		ec = m.replayCase(m.pickConf(), r.Intn(5))
 		ec.Sender = m.anyAccount()
 		have = true
 	}
@@ -1021,7 +1045,7 @@ func (m *mon) realEvidenceOps(h int64) {
 func (m *mon) jobOps(h int64) {
 	r, w := m.r, m.w
 	for ui, u := range w.Users {
-		if !m.chance("prune", 5) {
+		if !m.chance("prune", 9) {
 			continue
 		}
 		ch := w.Chains[r.Intn(len(w.Chains))]
